@@ -405,8 +405,8 @@ theorem no_stop_in_output_fixed (limit : Int) (stops : List Bytes) (evs : List E
 /-- **Single stop**: the full clause.  If the stop occurs in the generated text, the output is
     exactly the text before its first occurrence, contains no stop, and the reason is "stop";
     otherwise the run was not ended by a stop string. -/
-theorem single_stop (limit : Int) (s : Bytes) (evs : List Ev) (hs : s ≠ [] ∧ validUtf8 s = true) :
-    let f := run true limit [s] init evs
+theorem single_stop (pinned : Bool) (limit : Int) (s : Bytes) (evs : List Ev) (hs : s ≠ [] ∧ validUtf8 s = true) :
+    let f := run pinned limit [s] init evs
     ValidPrefix f.genText →
       (Occurs s f.genText →
         f.done = some .stop ∧ ¬ Occurs s f.outText ∧
@@ -416,22 +416,23 @@ theorem single_stop (limit : Int) (s : Bytes) (evs : List Ev) (hs : s ≠ [] ∧
   have hok : StopsOk [s] := by intro t ht; simp at ht; subst ht; exact hs
   constructor
   · intro hocc
-    obtain ⟨s', hc, hd⟩ := stop_honoured true limit [s] evs hok hvp ⟨s, by simp, hocc⟩
-    obtain ⟨_, hmem, ⟨idx, hidx1, hidx2, _⟩, hfind', _⟩ := stop_found true limit [s] evs hok s' hvp hc
-    have hfind := hfind' rfl
-    have hidx : ∃ idx, indexOf s' (run true limit [s] init evs).genText = some idx ∧
-        (run true limit [s] init evs).outText = (run true limit [s] init evs).genText.take idx := ⟨idx, hidx1, hidx2⟩
+    obtain ⟨s', hc, hd⟩ := stop_honoured pinned limit [s] evs hok hvp ⟨s, by simp, hocc⟩
+    obtain ⟨_, hmem, ⟨idx, hidx1, hidx2, _⟩, hfind', _⟩ := stop_found pinned limit [s] evs hok s' hvp hc
+    have hidx : ∃ idx, indexOf s' (run pinned limit [s] init evs).genText = some idx ∧
+        (run pinned limit [s] init evs).outText = (run pinned limit [s] init evs).genText.take idx := ⟨idx, hidx1, hidx2⟩
     simp at hmem; subst hmem
     refine ⟨hd, ?_, hidx⟩
-    apply no_stop_in_output_partial limit [s'] evs hok hvp _ s' (by simp)
-    unfold firstListedIsEarliest
-    rw [hfind]
-    obtain ⟨idx, hi, _⟩ := hidx
-    simp [hi]
+    cases pinned with
+    | false => exact no_stop_in_output_fixed limit [s'] evs hok hvp s' (by simp)
+    | true =>
+      apply no_stop_in_output_partial limit [s'] evs hok hvp _ s' (by simp)
+      unfold firstListedIsEarliest
+      rw [hfind' rfl]
+      simp [hidx1]
   · intro hno s' hc
-    obtain ⟨_, hmem, _, hfind', _⟩ := stop_found true limit [s] evs hok s' hvp hc
+    obtain ⟨_, hmem, ⟨idx, hidx1, _, _⟩, _, _⟩ := stop_found pinned limit [s] evs hok s' hvp hc
     simp at hmem; subst hmem
-    exact hno (findStop_some (hfind' rfl)).2
+    exact hno (occurs_of_indexOf hidx1)
 
 /-! ### 5b. the reader of `seq.responses` may lag: what it receives does not depend on when it reads -/
 
@@ -465,6 +466,56 @@ example :
     (runSched true 0 [] 2 0 init {} [] evs).2.forced = 2 ∧
     (runSched true 0 [] 2 9 init {} [] evs).2.recv = [[0x61], [0x62], [0x63], [0x64]] ∧
     (runSched true 0 [] 2 9 init {} [] evs).2.forced = 0 := by decide
+
+/-! ### 5c. the property as stated, for the tree as it is now (repaired `FindStop`, `pinned = false`) -/
+
+/-- **C14 for the current tree, all clauses in one statement.**  For every script of pieces/EOS, every
+    list of valid non-empty stops, every limit, and every reader schedule / channel capacity: if the
+    text generated up to the terminating event is (a prefix of) valid UTF-8 then
+    1. every streamed chunk is valid UTF-8 and the streamed text is a prefix of the generated text;
+    2. no stop string occurs in the streamed text;
+    3. if some stop occurs in the generated text: the reason is "stop" and the streamed text is the
+       generated text up to the earliest first occurrence of a stop (it ends immediately before one);
+    4. if none occurs: the run ended at EOS (reason "stop") or at the limit (reason "length") with all
+       the generated text streamed (minus a trailing incomplete character), or is still running with
+       nothing lost;
+    5. once the sequence is done, the reader has received exactly these chunks, whatever its schedule. -/
+theorem c14_streamed_text (limit : Int) (stops : List Bytes) (evs : List Ev) (hok : StopsOk stops)
+    (cap tail : Nat) (sched : List Nat) :
+    let f := run false limit stops init evs
+    ValidPrefix f.genText →
+      ((∀ c ∈ f.out, validUtf8 c = true ∧ c ≠ []) ∧ f.outText <+: f.genText) ∧
+      (∀ t ∈ stops, ¬ Occurs t f.outText) ∧
+      ((∃ t ∈ stops, Occurs t f.genText) →
+        f.done = some .stop ∧ ∃ s ∈ stops, ∃ idx, indexOf s f.genText = some idx ∧
+          (∀ t ∈ stops, ∀ j, indexOf t f.genText = some j → idx ≤ j) ∧ f.outText = f.genText.take idx) ∧
+      ((∀ t ∈ stops, ¬ Occurs t f.genText) →
+        (f.done = some .stop → f.cause = some .eos ∧ f.outText = trimValid f.genText) ∧
+        (f.done = some .length → f.cause = some .limit ∧ f.outText = trimValid f.genText) ∧
+        (f.done = none → f.outText ++ f.pending.flatten = f.genText)) ∧
+      (f.done.isSome = true → (runSched false limit stops cap tail init {} sched evs).2.recv = f.out) := by
+  intro f hvp
+  refine ⟨⟨chunks_valid false limit stops evs, (prefix_valid false limit stops evs hvp).1⟩,
+    no_stop_in_output_fixed limit stops evs hok hvp, ?_, ?_, ?_⟩
+  · intro hex
+    obtain ⟨s, hc, hd⟩ := stop_honoured false limit stops evs hok hvp hex
+    obtain ⟨_, hmem, ⟨idx, h1, h2, h3⟩, _, _⟩ := stop_found false limit stops evs hok s hvp hc
+    exact ⟨hd, s, hmem, idx, h1, h3 rfl, h2⟩
+  · intro hno
+    have hns : ∀ s, f.cause ≠ some (.stopString s) := by
+      intro s hc
+      obtain ⟨_, hmem, ⟨idx, h1, _, _⟩, _, _⟩ := stop_found false limit stops evs hok s hvp hc
+      exact hno s hmem (occurs_of_indexOf h1)
+    obtain ⟨_, htrim, _, hrun⟩ := ends_at_eos_or_limit false limit stops evs hok hvp hns
+    obtain ⟨hlen, hstop, hnone⟩ := reason_map false limit stops evs
+    refine ⟨fun hd => ?_, fun hd => ?_, fun hd => hrun (hnone.mp hd)⟩
+    · rcases hstop.mp hd with h | ⟨s, h⟩
+      · exact ⟨h, htrim (Or.inl h)⟩
+      · exact absurd h (hns s)
+    · have h := hlen.mp hd
+      exact ⟨h, htrim (Or.inr h)⟩
+  · intro hd
+    exact ((consumer_schedule_independent false limit stops evs cap tail sched).2.2 hd).1
 
 /-! ### 6. witnesses of the defects the model shares with the code -/
 
